@@ -213,4 +213,20 @@ PROPS = {
         "trusted_base": COMMON_TB + ["the sharding partial decoder and the external codecs' own partial decoders (blosc getitem) are corresponded, not modelled"],
         "assumptions": ["regions in bounds of the chunk"],
     },
+    "C20": {
+        "claimed": False,
+        "lean_props": ["ZarrsModel.Props.C20"],
+        "harness": "c20",
+        "rule": "C01 configurations; after a short history, for each of 2-5 write operations (all six kinds) and reads: the operation is run through a fault-injecting store wrapper at concurrency 1; first "
+                "fault-free to count its N store operations and record the intended final state, then for EVERY k <= N with the k-th store operation failing: the result must be an error (never ok, never "
+                "a panic), every key must hold its previous or its intended value, and a fault-free retry must reach the fault-free final state; for reads additionally a failed cached read (decoded and "
+                "encoded caches) followed by a successful one must return the right data; array/group metadata methods (store_metadata, open, group create/open/erase, erase_metadata) are swept the same "
+                "way; non-trivial = distinct sweep with N >= 1",
+        "nontrivial": lambda l: " faults n=" in l and " faults n=0 " not in l,
+        "exhaustive": True,
+        "exhaustive_scope": "every fault position k of every swept operation (concurrency target 1)",
+        "trusted_base": COMMON_TB + ["the fault-injecting wrapper is harness code; with internal parallelism the set of per-chunk operations completed before a failure is covered by the theorem (any sub-list), not by the sweep"],
+        "assumptions": ["a failing store operation has no effect on the store (it fails before acting)"],
+        "timeout": 3000,
+    },
 }
